@@ -1,5 +1,6 @@
 import H3.Model.ErrCell
 import H3.Lemmas.ErrCell
+import H3.Model.Setup
 /-! # C05 — one connection error, seen everywhere, never lost between tasks
 
 All theorems are about `run registerFirst (init todo) sched`: an ARBITRARY number of stream
@@ -249,5 +250,67 @@ theorem C05_lost_wakeup_witness :
     lostWakeup s = true ∧ quiescent s = true ∧ s.cell = some (.internal 261 1) ∧
     s.parked = true ∧ s.woken = false ∧ s.handled = none ∧ s.closes = [] ∧ s.drets = [] ∧
     s.tasks.map (·.rets) = [[.internal 261 1]] := by decide
+
+/-! ## `shutdown` (D-05s, repaired): the driver's remaining entry point reports the error too -/
+
+/-- **`shutdown` reports the connection's error.**  `ConnectionInner::shutdown` starts with
+    `check_connection_error` (`H3.Setup.checkError`).  In every state the system can reach — any
+    number of handles, any errors, any schedule — with the cell holding `e` (whoever stored it: the
+    driver or a request handle on another task, handled by the driver already or not):
+    the check answers `convert e`, the error every other call reports; afterwards `handled` is
+    that error, the cell is unchanged, and the close calls are exactly `closeOf e` — one call with
+    the error's code if it was detected locally, none otherwise, never a second one.  With the
+    cell empty the check answers nothing and changes nothing. -/
+theorem C05_shutdown_reports_error (rf : Bool) (todo : List (List Err)) (sched : List TaskId) :
+    let s := run rf (init todo) sched
+    (∀ e, s.cell = some e →
+      (H3.Setup.checkError s).2 = some (convert e) ∧
+      (H3.Setup.checkError s).1.handled = some (convert e) ∧
+      (H3.Setup.checkError s).1.closes = (closeOf e).toList ∧
+      (H3.Setup.checkError s).1.cell = some e) ∧
+    (s.cell = none → H3.Setup.checkError s = (s, none)) := by
+  intro s
+  have hs : InvW s := invW_run (invW_init todo) rf sched
+  refine ⟨fun e hc => ?_, fun hc => ?_⟩
+  · cases hh : s.handled with
+    | some h =>
+      obtain ⟨e', hc', hh', hcl⟩ := hs.handled_cell h hh
+      rw [hc] at hc'; cases hc'
+      simp [H3.Setup.checkError, hh, hh', hcl, hc]
+    | none =>
+      simp [H3.Setup.checkError, hh, hc, hs.handled_none hh]
+  · cases hh : s.handled with
+    | some h =>
+      obtain ⟨e', hc', _, _⟩ := hs.handled_cell h hh
+      rw [hc] at hc'; cases hc'
+    | none => simp [H3.Setup.checkError, hh, hc]
+
+/-- **… and then does nothing else.**  Once the driver has handled an error `h`, `shutdown` answers
+    `h` whatever GOAWAY was or was not sent before and whatever the transport would answer: it
+    decides `report h` before it looks at `sent_closing` or touches the control stream — no GOAWAY
+    is written to a connection that has failed, no further close call is made.  Without an error:
+    `Ok(())` at once if an identifier that is not larger was announced before, else the write. -/
+theorem C05_shutdown_after_error_writes_nothing (d : H3.Setup.Drv) (h : CErr) (keeps : Bool)
+    (w : Option H3.Setup.SErr) (hd : d.handled = some h) :
+    H3.Setup.shutdownPlan d keeps = .report h ∧ H3.Setup.shutdownEntry d keeps w = (d, some h) ∧
+    (∀ d' : H3.Setup.Drv, d'.handled = none →
+      H3.Setup.shutdownPlan d' true = .nothing ∧ H3.Setup.shutdownPlan d' false = .write) := by
+  refine ⟨by simp [H3.Setup.shutdownPlan, hd], by simp [H3.Setup.shutdownEntry, H3.Setup.shutdownPlan, hd], ?_⟩
+  intro d' hd'
+  simp [H3.Setup.shutdownPlan, hd']
+
+-- the D-05s witnesses on the models, now reporting the error: a handle stored a timeout, `accept`
+-- has not looked yet — `shutdown` reports it (nothing to close); h3 closed with H3_FRAME_UNEXPECTED
+-- — `shutdown` answers that error, before and after a GOAWAY was announced
+example :
+    let s := run true (init [[.quic .timeout]]) [.str 0, .str 0]
+    (H3.Setup.checkError s).2 = some .timeout ∧ (H3.Setup.checkError s).1.closes = [] := by decide
+example :
+    let s := run true (init [[.internal 261 1]]) [.drv .poll, .drv .pce, .str 0, .str 0, .drv .pce]
+    (H3.Setup.checkError s).2 = some (.localApp 261 1) ∧ (H3.Setup.checkError s).1.closes = [(261, 1)] := by decide
+example : H3.Setup.shutdownEntry { handled := some (.localApp 0x0105 0), closes := [0x0105] } false none =
+    ({ handled := some (.localApp 0x0105 0), closes := [0x0105] }, some (.localApp 0x0105 0)) ∧
+    H3.Setup.shutdownEntry { handled := some .timeout } true none = ({ handled := some .timeout }, some .timeout) := by
+  decide
 
 end H3.Props.C05
